@@ -92,14 +92,35 @@ func init() {
 		New:    "case \"keys\", \"scan\", \"nearby\", \"within\", \"intersects\", \"hooks\",\n\t\t\"chans\"",
 		Expect: "R15.read-gate", Key: "get", Why: "GET served by a follower that never caught up"})
 
+	// ---- R8 ----------------------------------------------------------------
+	mutant(&Mutant{Name: "dirty-clear-outside", Props: []string{"C08"}, File: fServer,
+		Old: "\t\t\t\t\t\t\ts.flushAOF(false)\n\t\t\t\t\t\t\ts.aofdirty.Store(false)\n\t\t\t\t\t\t}()\n\t\t\t\t\t}\n\t\t\t\t\tconn.Write(client.out)",
+		New: "\t\t\t\t\t\t\ts.flushAOF(false)\n\t\t\t\t\t\t}()\n\t\t\t\t\t\ts.aofdirty.Store(false)\n\t\t\t\t\t}\n\t\t\t\t\tconn.Write(client.out)",
+		Expect: "R8.flag-under-lock", Key: "aofdirty.Store(false)", Why: "reverse of the dirty-flag fix"})
+	mutant(&Mutant{Name: "detach-no-prewrite", Props: []string{"C08"}, File: fServer,
+		Old: "\t\t\t\t\t\t\t\t\tif s.aofdirty.Load() {\n\t\t\t\t\t\t\t\t\t\tfunc() {", New: "\t\t\t\t\t\t\t\t\tif s.aofdirty.Load() && false {\n\t\t\t\t\t\t\t\t\t\tfunc() {",
+		Expect: "R8.flush-before-send", Key: "client.conn.Write(client.out)", Why: "reverse of the detach-path fix"})
+	mutant(&Mutant{Name: "prewrite-wrong-test", Props: []string{"C08"}, File: fServer,
+		Old: "\t\t\t\tif len(client.out) > 0 {\n\t\t\t\t\tif s.aofdirty.Load() {", New: "\t\t\t\tif len(client.out) > 0 {\n\t\t\t\t\tif s.aofdirty.Load() && len(client.out) > 64 {",
+		Expect: "R8.flush-before-send", Key: "conn.Write(client.out)", Why: "the flush is skipped for short replies"})
+	mutant(&Mutant{Name: "prewrite-rlock", Props: []string{"C08", "C07"}, File: fServer,
+		Old: "\t\t\t\t\t\t\t// prewrite\n\t\t\t\t\t\t\ts.mu.Lock()\n\t\t\t\t\t\t\tdefer s.mu.Unlock()", New: "\t\t\t\t\t\t\t// prewrite\n\t\t\t\t\t\t\ts.mu.RLock()\n\t\t\t\t\t\t\tdefer s.mu.RUnlock()",
+		Expect: "R8.flag-under-lock", Key: "aofdirty.Store(false)", Why: "flush and clear under the shared lock"})
+	mutant(&Mutant{Name: "writeaof-no-dirty", Props: []string{"C08"}, File: fAOF,
+		Old: "\t\ts.aofdirty.Store(true) // prewrite optimization flag\n", New: "",
+		Expect: "R8.set-on-append", Key: "writeAOF", Why: "appends never mark the buffer dirty"})
+	mutant(&Mutant{Name: "flush-truncate-first", Props: []string{"C08"}, File: fAOF,
+		Old: "\tif len(s.aofbuf) > 0 {\n\t\t_, err := s.aof.Write(s.aofbuf)", New: "\tif len(s.aofbuf) > 0 {\n\t\tif len(s.aofbuf) > 1<<30 {\n\t\t\ts.aofbuf = s.aofbuf[:0]\n\t\t}\n\t\t_, err := s.aof.Write(s.aofbuf)",
+		Expect: "R8.flush-complete", Key: "write-before-truncate", Why: "buffer can be dropped unwritten"})
+
 	// ---- neutral variants --------------------------------------------------
 	mutant(&Mutant{Name: "neutral-rename-write-flag", Props: []string{"C03", "C07", "C15"}, Neutral: true, File: fScripts,
 		Old: "func (s *Server) luaTile38NonAtomic(msg *Message) (resp.Value, error) {\n\tvar write bool\n", New: "func (s *Server) luaTile38NonAtomic(msg *Message) (resp.Value, error) {\n\tvar write bool\n\t_ = \"neutral\"\n",
 		Why: "an inert statement"})
 	mutant(&Mutant{Name: "neutral-prewrite-helper", Props: []string{"C07", "C08"}, Neutral: true, File: fServer,
-		Old: "\t\t\t\t\t\tfunc() {\n\t\t\t\t\t\t\t// prewrite\n\t\t\t\t\t\t\ts.mu.Lock()\n\t\t\t\t\t\t\tdefer s.mu.Unlock()\n\t\t\t\t\t\t\ts.flushAOF(false)\n\t\t\t\t\t\t}()",
-		New: "\t\t\t\t\t\ts.prewriteNeutral()",
-		Edits: []Edit{{fServer, "func isReservedFieldName(field string) bool {", "func (s *Server) prewriteNeutral() {\n\ts.mu.Lock()\n\tdefer s.mu.Unlock()\n\ts.flushAOF(false)\n}\n\nfunc isReservedFieldName(field string) bool {"}},
+		Old: "\t\t\t\t\tif s.aofdirty.Load() {\n\t\t\t\t\t\tfunc() {\n\t\t\t\t\t\t\t// prewrite\n\t\t\t\t\t\t\ts.mu.Lock()\n\t\t\t\t\t\t\tdefer s.mu.Unlock()\n\t\t\t\t\t\t\ts.flushAOF(false)\n\t\t\t\t\t\t\ts.aofdirty.Store(false)\n\t\t\t\t\t\t}()\n\t\t\t\t\t}",
+		New: "\t\t\t\t\ts.prewriteNeutral()",
+		Edits: []Edit{{fServer, "func isReservedFieldName(field string) bool {", "func (s *Server) prewriteNeutral() {\n\tif !s.aofdirty.Load() {\n\t\treturn\n\t}\n\ts.mu.Lock()\n\tdefer s.mu.Unlock()\n\ts.flushAOF(false)\n\ts.aofdirty.Store(false)\n}\n\nfunc isReservedFieldName(field string) bool {"}},
 		Why: "the prewrite block extracted into a helper"})
 	mutant(&Mutant{Name: "neutral-gate-operand-order", Props: []string{"C15"}, Neutral: true, File: fServer,
 		Old: "\t\twrite = true\n\t\ts.mu.Lock()\n\t\tdefer s.mu.Unlock()\n\t\tif s.config.followHost() != \"\" {", New: "\t\twrite = true\n\t\ts.mu.Lock()\n\t\tdefer s.mu.Unlock()\n\t\tif \"\" != s.config.followHost() {",
